@@ -13,7 +13,10 @@ scenario = c<credit>-p<polls>[-a<n>|-x]*      outcome = res=S,P;credit=1;wakes=0
 
 Several writer threads on one stream (`Model/WakerN`, repaired code only; `pinned` answers `bad-op`):
 
-scenario = c<credit>-w<writers>[-a<n>|-x]*    (every writer thread polls once, as in the loom hook)
+scenario = c<credit>-w<writers>[-a<n>|-x|-s]* (every writer thread polls once, as in the loom hook;
+                                               `s` = a thread calling `do_shutdown()` through another
+                                               handle: `swap(true)`, no `wake()`; model only — the
+                                               loom hook has no such scenario yet)
 outcome  = res=S,P;credit=0;wakes=0,1;after=1,1;closed=0;frames=1
   `res` / `wakes` per writer thread, `after` per writer the wake-ups delivered to ANY waker after that
   writer's poll began.  "Began" is the hook's instrumentation, not an operation of the code: the hook
@@ -147,15 +150,16 @@ def monitor (sc : Scenario) (o : Outcome) : String :=
 namespace N
 open Penguin.WakerN
 
-/-- `c<credit>-w<writers>[-a<n>|-x]*`: `writers` threads, one poll each. -/
+/-- `c<credit>-w<writers>[-a<n>|-x|-s]*`: `writers` threads, one poll each; every `s` is one more
+    `do_shutdown()` thread (these are not actors of the connection task: `Model/WakerN`). -/
 def parseScenario (s : String) : Option WakerN.Scenario :=
   match s.splitOn "-" with
   | c :: w :: rest => do
     let credit ← (← stripPrefix 'c' c).toNat?
     let writers ← (← stripPrefix 'w' w).toNat?
     if writers < 2 then none
-    let actors ← rest.mapM parseActor
-    pure ⟨credit, List.replicate writers 1, actors⟩
+    let actors ← (rest.filter (· != "s")).mapM parseActor
+    pure ⟨credit, List.replicate writers 1, actors, rest.count "s"⟩
   | _ => none
 
 /-- Exploration state: the model state and, per writer thread, the hook's reading of its wake-up
@@ -175,7 +179,8 @@ def xlabels (x : XState) : List XLabel :=
   let n := x.1.writers.length
   let begins := ((List.range n).filter (fun w => !began x w)).map XLabel.begin
   let ws := ((List.range n).filter (began x)).flatMap fun w => [WakerN.Label.writer w, WakerN.Label.casSpurious w]
-  let ls := (ws ++ (List.range x.1.actors.length).map WakerN.Label.actor).filter (WakerN.enabled x.1)
+  let ls := (ws ++ (List.range x.1.actors.length).map WakerN.Label.actor ++ [WakerN.Label.shutdown]).filter
+    (WakerN.enabled x.1)
   begins ++ ls.map XLabel.model
 
 def xstep (x : XState) : XLabel → XState
@@ -186,6 +191,7 @@ def xlabelName (x : XState) : XLabel → String
   | .begin w => s!"w{w}:begin"
   | .model (.writer w) => s!"w{w}:" ++ (match x.1.writers[w]? with | some wr => pcName wr.pc | none => "?")
   | .model (.casSpurious w) => s!"w{w}:casSpurious"
+  | .model .shutdown => "s:swap"
   | .model (.actor i) =>
     match x.1.actors[i]? with
     | some a =>
@@ -243,14 +249,18 @@ def parseOutcome (s : String) : Option Outcome :=
 
 /-- The predicate of `Props/C12` (`…_n` theorems) and `Props/C03` on a FINAL outcome of a scenario with
     several writers: `no_frame_without_credit_n` (frames never exceed initial + grants),
-    `credit_conservation_n`, frames = `Ready(Some)` polls, `no_lost_wakeup_slot_n` (a writer left
-    `Pending` that could proceed or should fail: a wake-up was delivered after its poll began). -/
+    `credit_conservation_n`, frames = `Ready(Some)` polls, `no_lost_wakeup_slot_task_n` /
+    `no_writer_left_unwoken_after_close_n` (a writer left `Pending` although credit is available or the
+    CONNECTION TASK has closed the stream — at quiescence: the scenario has a `disallow_write()` —: a
+    wake-up was delivered after its poll began; a stream closed by foreign `do_shutdown()`s alone owes
+    no wake-up, `foreign_shutdown_alone_wakes_nobody`). -/
 def monitor (sc : WakerN.Scenario) (o : Outcome) : String :=
   let n := sc.writers.length
   let obtainable := sc.credit + sc.ackTotal
   let taken := o.res.count "S"
+  let taskCloses := sc.actors.any fun | .close => true | .ack _ => false
   let asleep := (List.range n).any fun i =>
-    o.res[i]? == some "P" && o.after[i]?.getD 0 == 0 && (o.credit > 0 || o.closed)
+    o.res[i]? == some "P" && o.after[i]?.getD 0 == 0 && (o.credit > 0 || (o.closed && taskCloses))
   if o.res.length != n || o.wakes.length != n || o.after.length != n then "malformed"
   else if taken > obtainable || o.frames > obtainable then "no-credit"
   else if o.credit + taken != obtainable then "conservation"
